@@ -203,6 +203,13 @@ def gen_case(rng):
         units = rng.choice(['md', 'yd', 'wd', 'dh', 'mw', 'qd', 'hn', 'ym', 'bd'])
         for u in units:
             parts.append('%d%s' % (rng.choice([1, 2, 3]) * sign, u))
+        if rng.random() < 0.3:
+            # parts of opposite sign: the direction of the compound is that of its net movement, whichever part is written first
+            big_u, small_u, nsmall = rng.choice([('w', 'd', 3), ('m', 'd', 3), ('y', 'm', 3), ('d', 'h', 12), ('q', 'd', 5), ('m', 'w', 1)])
+            units = big_u + small_u
+            parts = ['%d%s' % (rng.choice([1, 2]) * sign, big_u), '%d%s' % (-rng.randint(1, nsmall) * sign, small_u)]
+            if rng.random() < 0.5:
+                parts.reverse()
         bump = ''.join(parts)
         intr = any(u in 'hns' for u in units)
         t0 = day + (datetime.timedelta(hours=rng.randrange(24)) if intr else datetime.timedelta(0))
